@@ -414,14 +414,19 @@ def run(rep, ctx):
         raise AnalysisBroken("ProblemFlattener::ConvertStandardItems instantiation not found")
     f = cs[0]
     okp = False
-    for lp in f.find(lambda n: n["k"] == "ForStmt"):
-        ks = lp.get("c", [])
-        body = ks[4]
-        if body is None or "obj(i)" not in render(body).replace(" ", "") and "obj(i)" not in "".join(render(x) for x in walk(body) if x["k"] == "CXXMemberCallExpr"):
+    from ..cfg import loop_shape as _ls
+    for lp in f.find(lambda n: n["k"] in ("ForStmt", "WhileStmt")):
+        sh_ = _ls(f, lp)
+        if sh_ is None:
             continue
-        init, cond, inc = ks[0], ks[2], ks[3]
-        okp = cv(kids(kids(init)[0])[0]) == 0 and render(cond).replace(" ", "") == "i<num_objs" and \
-            render(inc) in ("++i", "i++")
+        body = [x for x in lp.get("c", []) if x is not None][-1]
+        objc = [x for x in walk(body) if x["k"] == "CXXMemberCallExpr" and (x.get("callee") or "").split("::")[-1] == "obj" and call_args(x) and
+                strip(call_args(x)[0]).get("declId") == sh_["var"]]
+        if not objc:
+            continue
+        bnd_ = xrender(f, sh_["bound"], True).replace(" ", "").replace("this->", "")
+        okp = sh_["dir"] == "up" and sh_["stepped"] and sh_["rel"] == "<" and sh_["start"] not in (None, "continues") and cv(sh_["start"]) == 0 and \
+            bnd_.endswith("GetModel().num_objs()")
     p2.check(okp, "objective-loop", short_loc(f.loc),
              "for (i = 0; i < num_objs; ++i) Convert(GetModel().obj(i))")
     # ---- K1: the constant of the selected objective's nonlinear part -------------------------------------------------
